@@ -443,6 +443,22 @@ func (g *G) record(t *tenant) {
 		contract = rng.Pick(r, contracts)
 		token = rng.Pick(r, tokens)
 	}
+	if !g.p.Isolate && r.P(1, 14) {
+		// a token id written with a sign, or with something else that is no hex digit: not a token id
+		token = rng.Pick(r, []string{"0x+1", "0x-1", "0x+2", "0x+a", "0x-0", "0x1_0", "0x 1", "0x+"})
+		if r.P(1, 2) {
+			// ... on a supported external chain, for a proper contract, twice
+			for _, c := range g.chains {
+				if c != world.ThisChain {
+					chain, contract = c, contracts[0]
+					req2 := fmt.Sprintf("sg%d", t.nreq)
+					t.nreq++
+					g.emit("record %s %d %s 1 %s %s %s %s", t.admins[0], t.id, e(req2), e(t.denom), e(chain), e(contract), e(rng.Pick(r, []string{"0x+1", "0x-2", "0x+f"})))
+					break
+				}
+			}
+		}
+	}
 	tid := t.id
 	if r.P(1, 15) {
 		tid = 9
